@@ -26,8 +26,8 @@ write("C07", "C07 — open handles stay bound to their stream and never touch ot
    ("writes_do_not_touch_other_chains", "chain_write_frame_other", "a write into one chain leaves the content of every chain that shares no sector with it unchanged"),
   ])
 
-write("C01", "C01 — namespace and content operations agree with an abstract tree model.  Statements are printed by Check below and compared with C01.expected.  PARTIAL: proved are the directory layer (lookup / insert / remove / listing on the pointer table refine a search tree over cmp_names, for any tree shape), the specification's own invariants, and the refinement of the NAMESPACE: under the representation relation TreeRep (table represents abstract tree; stream bytes abstracted by a content relation with a frame hypothesis) every query returns the specification's result and every successful namespace mutation yields a table representing the specification's new tree, with agreeing refusal kinds.  NOT proved: that TreeRep is established by create/open and the content frame for stream bytes through chains and migrations (the composed step_refines_spec over whole histories) — that is checked instance by instance: on every step of every generated history the abstraction of the model state equals the specification tree and the specification's result equals the implementation's.",
-  IMP_ALL + "\nFrom Cfb.spec Require Import Tree.\nFrom Cfb.proofs Require Import NamesProofs DirProofs TreeProofs QueryRefine MutRefine.",
+write("C01", "C01 — namespace and content operations agree with an abstract tree model.  Statements are printed by Check below and compared with C01.expected.  PARTIAL: proved are the directory layer (lookup / insert / remove / listing on the pointer table refine a search tree over cmp_names, for any tree shape), the specification's own invariants, and the refinement of the NAMESPACE: under the representation relation TreeRep (table represents abstract tree; stream bytes abstracted by a content relation with a frame hypothesis) every query returns the specification's result and every successful namespace mutation yields a table representing the specification's new tree, with agreeing refusal kinds.  Also proved (proofs/HistoryRefine.v): the lift to WHOLE HISTORIES from a freshly created file of either version - for every list of the seven namespace mutations, nine queries, open_stream and stream creation at fresh paths, the model's results and the specification's are related call by call (equal refusal kinds, entries equal up to the root's length field) and the final table represents the final tree, up to the first LATE FAILURE (specification Ok, model Err/Panic/OutOfFuel from allocation - not excluded by these theorems) if there is one.  NOT proved: absence of late failures, truncating create_stream, the *_all operations, and the content frame for stream bytes through chains and migrations — those are checked instance by instance: on every step of every generated history the abstraction of the model state equals the specification tree and the specification's result equals the implementation's.",
+  IMP_ALL + "\nFrom Cfb.spec Require Import Tree.\nFrom Cfb.proofs Require Import NamesProofs DirProofs TreeProofs QueryRefine MutRefine ReadonlyTotal HistoryRefine.",
   [("lookup_is_bst_lookup", "find_in_siblings_total", "table lookup with the model's own fuel = search-tree lookup, for ANY tree shape (balance and colour irrelevant)"),
    ("bst_lookup_finds_exactly_equivalent_name", "bst_find_iff", "the id found is the unique entry whose name is equivalent up to case"),
    ("insert_is_bst_insert", "insert_rep", "insertion links a new leaf at the search position; ids become a permutation of new :: old"),
@@ -43,6 +43,11 @@ write("C01", "C01 — namespace and content operations agree with an abstract tr
    ("create_stream_refines_spec", "create_stream_step_refines", "creating a new stream: the new table represents the tree with an empty leaf inserted at the sorted position"),
    ("create_storage_refusal_kinds_agree", "create_storage_refusal", "when the specification refuses, the model refuses with the same kind and an unchanged state (same for the other seven operations: *_refusal in proofs/MutRefine.v)"),
    ("remove_stream_refusal_kinds_agree", "remove_stream_refusal", "same, for remove_stream"),
+   ("one_step_agreement", "step_agreement", "on every covered call model and specification agree (results related, new table represents new tree) unless the specification succeeds and the model fails late"),
+   ("fresh_file_represents_empty_tree", "fresh_sim", "the file written by create (V3 and V4) represents the empty tree"),
+   ("histories_refine_spec", "fresh_history_refines", "for EVERY history of covered calls on a fresh file without late failure: all results related, final table represents the final tree"),
+   ("histories_agree_until_late_failure", "fresh_history_agrees_until_late_failure", "without that hypothesis: results are related strictly up to the first late failure, which is the only way the two can part"),
+   ("history_example", "Example.ex_history", "non-vacuity: an 18-call history (five of them refused) on V3 and V4 meets the hypotheses"),
   ])
 
 write("C15", "C15 — released space is reused: repeating a net-zero cycle does not grow the file.  Statements are printed by Check below and compared with C15.expected; proofs in proofs/ReuseProofs.v.  PARTIAL: the allocation-level theorems (reuse before growth, LIFO reuse of a freed chain, no MiniFAT / mini-stream chain extension while retained capacity suffices) are proved; the history-level statement netzero_stable (file size constant from the second repetition of ANY net-zero cycle) is checked by enumeration on the real crate and by evaluation of the model on the witness cycles.",
